@@ -26,6 +26,17 @@ def jobs_for(tier, rng):
         a = ((rows + w1 - 1,), w1, n1, 3, rng.randrange(1 << 30))
         b = ((rows + w2 - 1,), w2, n2, 3, rng.randrange(1 << 30))
         jobs += [a, b, a, ((rows + w2 - 1, rows + w2 - 1), w2, n2, 3, rng.randrange(1 << 30))]
+    # ... and consecutive calls on tuples with the same NUMBER of series and the same TOTAL length but another
+    # composition (a mask or split memoised on (count, total) would serve the wrong boundaries)
+    for g in range(6 if tier == "quick" else 40):
+        W = rng.choice(list(Ws))
+        N = rng.choice(list(Ns))
+        a, b, c3 = W + rng.randint(1, 6), W + rng.randint(7, 12), W + rng.randint(0, 3)
+        sd = rng.randrange(1 << 30)
+        if g % 2 == 0:
+            jobs += [((a, b), W, N, 3, sd), ((b, a), W, N, 3, sd + 1), ((a + 1, b - 1), W, N, 3, sd + 2), ((a, b), W, N, 3, sd + 3)]
+        else:
+            jobs += [((a, b, c3), W, N, 3, sd), ((c3, a, b), W, N, 3, sd + 1), ((b, c3, a), W, N, 3, sd + 2), ((a, b, c3), W, N, 3, sd + 3)]
     for W in Ws:
         for T in range(W, W + extra + 1):
             for N in Ns:
